@@ -88,7 +88,7 @@ fn enet<F: Float>(case: &Case, spec: &BuilderSpec, out: &mut Outcome) {
         |p| p.fit(&ds).map(|m| dbg(&m)).map_err(|e: ElasticNetError| dbg(&e)),
         |e| dbg(&e),
     )];
-    judge(case, spec, &base, &set, Some(&|p| p.clone()), &|p| dbg(p), &|c| dbg(c), ops, out);
+    judge(case, spec, &base, &set, Some(&|p| p.clone()), &[], &|p| dbg(p), &|c| dbg(c), ops, out);
 }
 
 fn mtenet<F: Float>(case: &Case, spec: &BuilderSpec, out: &mut Outcome) {
@@ -104,7 +104,7 @@ fn mtenet<F: Float>(case: &Case, spec: &BuilderSpec, out: &mut Outcome) {
         |p| p.fit(&ds).map(|m| dbg(&m)).map_err(|e: ElasticNetError| dbg(&e)),
         |e| dbg(&e),
     )];
-    judge(case, spec, &base, &set, Some(&|p| p.clone()), &|p| dbg(p), &|c| dbg(c), ops, out);
+    judge(case, spec, &base, &set, Some(&|p| p.clone()), &[], &|p| dbg(p), &|c| dbg(c), ops, out);
 }
 
 // ------------------------------------------------------------------------------------------
@@ -177,7 +177,7 @@ macro_rules! logistic_impl {
                 |p| p.fit(&ds).map(|m| dbg(&m)).map_err(|e: linfa_logistic::error::Error| dbg(&e)),
                 |e| dbg(&e),
             )];
-            judge(case, spec, &base, &set, Some(&|p| p.clone()), &|p| dbg(p), &|c| dbg(c), ops, out);
+            judge(case, spec, &base, &set, Some(&|p| p.clone()), &[], &|p| dbg(p), &|c| dbg(c), ops, out);
         }
     };
 }
@@ -256,7 +256,7 @@ macro_rules! tweedie_impl {
                 |p| p.fit(&ds).map(|m| dbg(&m)).map_err(|e: LinearError<$f>| dbg(&e)),
                 |e| dbg(&e),
             )];
-            judge(case, spec, &base, &set, Some(&|p| p.clone()), &|p| dbg(p), &|c| dbg(c), ops, out);
+            judge(case, spec, &base, &set, Some(&|p| p.clone()), &[], &|p| dbg(p), &|c| dbg(c), ops, out);
         }
     };
 }
